@@ -52,6 +52,18 @@ chk('C13', 'model_checking', 'explicit-state BFS over time-stamp gap sequences o
     'dyadic periods/tolerances so that the interval test is exact; time-stamps in the default unit; sequence length bounded',
     'DESIGN.md section 5 C13')
 
+chk('C09', 'model_checking', 'explicit-state BFS of the real modular monitor per decomposition + exhaustive offline traces/signals, against the inlined reference',
+    'every decomposition of the base formulas into named sub-specifications (shared, nested, add_sub_spec and multi-assertion form) and declared constants is monitored by the real implementation: '
+    'discrete online by product BFS (plain and pastified), dense online over all schedules, offline kinds on all traces / grid signals; outputs must equal the reference of the inlined formula',
+    'trusted: vf/refsem.py, vf/dref.py; base formula list is hand-picked plus (thorough) an enumerated slice; decompositions enumerated exhaustively per formula',
+    'DESIGN.md section 5 C09')
+
+chk('C12', 'model_checking', 'explicit-state BFS with stand-alone monitors in lock-step + exhaustive offline traces/signals; get_value of every name compared',
+    'for every decomposition of the base formulas, after every evaluate()/update() get_value(name) of every assertion and sub-specification is compared with a real stand-alone specification of the inlined formula '
+    '(same kind, pastified too) and get_value(var) with the supplied data; online kinds explored as state graphs (product BFS / all schedules)',
+    'the oracle is the real stand-alone monitor (whose correctness is C01-C05); dense values compared as functions',
+    'DESIGN.md section 5 C12')
+
 def main():
     props = [json.loads(l) for l in open(os.path.join(ROOT, 'properties.jsonl'))]
     checks = []
